@@ -1,9 +1,9 @@
-(* Proofs/AgreeFad.v — C03 agreement: script-code equality for decodable scripts.
-   For a script (tail) that GetOp decodes to its end, pycoin's _delete_signature walk (one pass per blob, plain push
-   of the blob as pattern, blobs taken bottom-first) and Core's FindAndDelete (CScript() << sig, top-first) both
-   compute "drop every instruction equal to the push of one of the blobs": `fad_ok tail`.
-   (After /repo commit 2ba5b6d; before it the pattern was the MINIMAL push and the equality failed for one-byte
-   blobs 01..10 / 81: the reported deviation.) *)
+(* Proofs/AgreeFad.v — C03 agreement: script-code equality for EVERY script.
+   Every byte string splits into the instructions GetOp decodes followed by an undecodable tail (possibly empty).
+   pycoin's _delete_signature walk (one pass per blob, plain push of the blob as pattern, blobs taken bottom-first,
+   stopping at the first undecodable instruction and keeping the rest: /repo 2ba5b6d + 50939fb) and Core's
+   FindAndDelete (CScript() << sig, top-first) both compute "drop every decoded instruction equal to the push of
+   one of the blobs, keep the tail": `fad_ok tail` holds for all tails. *)
 From Coq Require Import Lia ZifyBool ZifyNat ZifyN.
 From PV Require Import Base.Bytes Base.Outcome Gen.GenOpcodes Gen.GenFlags.
 From PV Require Import Model.ScriptNum Model.Push Spec.VMTypes Model.VMpy Spec.VMcore Proofs.VMpyP.
@@ -63,46 +63,39 @@ Proof.
   now apply app_inv_tail in E.
 Qed.
 
-(* decoded scripts *)
-Inductive dec : bytes -> list bytes -> Prop :=
-| dec_nil : dec [] []
-| dec_cons i rest l : complete i -> dec rest l -> dec (i ++ rest) (i :: l).
+(* decoded scripts: instructions, then a tail GetOp cannot read (or nothing) *)
+Inductive dec : bytes -> list bytes -> bytes -> Prop :=
+| dec_end u : get_op u = None -> dec u [] u
+| dec_cons i rest l u : complete i -> dec rest l u -> dec (i ++ rest) (i :: l) u.
 
-Lemma dec_concat s l : dec s l -> concat l = s.
-Proof. induction 1; cbn [concat]; congruence. Qed.
-Lemma dec_complete s l : dec s l -> Forall complete l.
+Lemma dec_concat s l u : dec s l u -> concat l ++ u = s.
+Proof. induction 1; cbn [concat app]; [reflexivity|]. rewrite <- app_assoc. congruence. Qed.
+Lemma dec_complete s l u : dec s l u -> Forall complete l.
 Proof. induction 1; constructor; auto. Qed.
-Lemma dec_of_complete l : Forall complete l -> dec (concat l) l.
-Proof. induction 1; cbn [concat]; constructor; auto. Qed.
-
-Lemma dec_step s l op d rest : dec s l -> get_op s = Some (op, d, rest) ->
-  exists i l', s = i ++ rest /\ l = i :: l' /\ complete i /\ dec rest l'.
+Lemma dec_tail s l u : dec s l u -> get_op u = None.
+Proof. induction 1; auto. Qed.
+Lemma dec_of_complete l u : Forall complete l -> get_op u = None -> dec (concat l ++ u) l u.
 Proof.
-  intros H G. destruct H as [|i r l' Hc Hd]; [discriminate|].
-  destruct Hc as (Hne & op' & d' & Hi). pose proof (Hi r) as A. rewrite G in A. injection A as _ _ <-.
-  exists i, l'. repeat split; auto. exists op', d'. exact Hi.
+  intros H Hu. induction H; cbn [concat app]; [constructor; exact Hu|]. rewrite <- app_assoc. constructor; auto.
 Qed.
 
-(* executable decodability and its meaning *)
-Fixpoint decb (fuel : nat) (s : bytes) : bool :=
-  match s with
-  | [] => true
-  | _ :: _ => match fuel with
-              | O => false
-              | S f => match get_op s with Some (_, _, rest) => decb f rest | None => false end
-              end
-  end.
-Definition script_decodable (s : bytes) : bool := decb (length s) s.
-
-Lemma decb_dec fuel : forall s, (length s <= fuel)%nat -> decb fuel s = true -> exists l, dec s l.
+Lemma dec_step s l u op d rest : dec s l u -> get_op s = Some (op, d, rest) ->
+  exists l', dec rest l' u.
 Proof.
-  induction fuel as [|f IH]; intros s Hl H.
-  - destruct s; [exists []; constructor|discriminate].
-  - destruct s as [|b r]; [exists []; constructor|]. cbn [decb] in H.
-    destruct (get_op (b :: r)) as [[[op d] rest]|] eqn:G; [|discriminate].
-    pose proof (get_op_shrinks _ _ _ _ G) as Hs.
-    destruct (IH rest ltac:(cbn [length] in *; lia) H) as [l Hd].
-    destruct (get_op_complete _ _ _ _ G) as (i & E & Hc). rewrite E. exists (i :: l). constructor; assumption.
+  intros H G. destruct H as [u Hu|i r l' u Hc Hd]; [congruence|].
+  destruct Hc as (Hne & op' & d' & Hi). pose proof (Hi r) as A. rewrite G in A. injection A as _ _ <-.
+  exists l'. exact Hd.
+Qed.
+
+Lemma dec_exists fuel : forall s, (length s <= fuel)%nat -> exists l u, dec s l u.
+Proof.
+  induction fuel as [|f IH]; intros s Hl.
+  - destruct s; [|cbn in Hl; lia]. exists [], []. constructor. reflexivity.
+  - destruct (get_op s) as [[[op d] rest]|] eqn:G.
+    + pose proof (get_op_shrinks _ _ _ _ G) as Hs.
+      destruct (IH rest ltac:(lia)) as (l & u & Hd).
+      destruct (get_op_complete _ _ _ _ G) as (i & E & Hc). rewrite E. exists (i :: l), u. constructor; assumption.
+    + exists [], s. constructor. exact G.
 Qed.
 
 (* ---- the two deletions as filters ------------------------------------------------------------------------------- *)
@@ -118,12 +111,15 @@ Proof.
   destruct (IH s H2) as [t ->]. exists t. reflexivity.
 Qed.
 
-Lemma fad_loop_filter b : complete b -> forall s l, dec s l -> forall fuel, (length s < fuel)%nat ->
-  fad_loop fuel b s = concat (filter (keep b) l).
+Lemma fad_loop_filter b : complete b -> forall s l u, dec s l u -> forall fuel, (length s < fuel)%nat ->
+  fad_loop fuel b s = concat (filter (keep b) l) ++ u.
 Proof.
-  intros Hb s l H. induction H as [|i rest l Hc Hd IH]; intros fuel Hf.
-  - destruct fuel; [lia|]. cbn [fad_loop]. destruct b as [|b0 bt]; [destruct Hb as [Hb _]; contradiction|].
-    reflexivity.
+  intros Hb s l u H. induction H as [u Hu|i rest l u Hc Hd IH]; intros fuel Hf.
+  - destruct fuel; [lia|]. cbn [fad_loop filter concat app].
+    destruct (is_prefix b u) eqn:EP.
+    + destruct (is_prefix_inv _ _ EP) as [t Et]. destruct Hb as (_ & op & d & Hi).
+      rewrite Et, Hi in Hu. discriminate.
+    + now rewrite Hu.
   - destruct fuel as [|f]; [lia|]. cbn [fad_loop].
     assert (Hine : (0 < length i)%nat) by (destruct Hc as [Hne _]; destruct i; [contradiction|cbn; lia]).
     rewrite app_length in Hf.
@@ -137,23 +133,30 @@ Proof.
       rewrite firstn_app_exact. cbn [filter]. unfold keep at 1.
       destruct (bytes_eqb i b) eqn:Eb.
       * apply bytes_eqb_eq in Eb. subst. rewrite is_prefix_app in EP. discriminate.
-      * cbn [negb concat]. f_equal. apply IH. lia.
+      * cbn [negb concat]. rewrite <- app_assoc. f_equal. apply IH. lia.
 Qed.
 
-Lemma find_and_delete_filter b s l : complete b -> dec s l -> find_and_delete b s = concat (filter (keep b) l).
+Lemma find_and_delete_filter b s l u : complete b -> dec s l u -> find_and_delete b s = concat (filter (keep b) l) ++ u.
 Proof.
   intros Hb Hd. unfold find_and_delete. destruct b as [|b0 bt]; [destruct Hb as [Hb _]; contradiction|].
   apply fad_loop_filter; [exact Hb|exact Hd|lia].
 Qed.
 
-Lemma delete_walk_filter script sub : forall l pc, dec (skipn pc script) l -> forall fuel,
+Lemma delete_walk_filter script sub : forall l u pc, dec (skipn pc script) l u -> forall fuel,
   (length script - pc <= fuel)%nat ->
-  delete_walk fuel script sub pc = Ret (concat (filter (keep sub) l)).
+  delete_walk fuel script sub pc = Ret (concat (filter (keep sub) l) ++ u).
 Proof.
-  intros l pc H. remember (skipn pc script) as s eqn:Es. revert pc Es.
-  induction H as [|i rest l Hc Hd IH]; intros pc Es fuel Hf.
-  - symmetry in Es. apply skipn_nil_iff in Es. destruct fuel; cbn [delete_walk];
-      replace (length script <=? pc)%nat with true by lia; reflexivity.
+  intros l u pc H. remember (skipn pc script) as s eqn:Es. revert pc Es.
+  induction H as [u Hu|i rest l u Hc Hd IH]; intros pc Es fuel Hf.
+  - cbn [filter concat app]. destruct u as [|ob r].
+    + symmetry in Es. apply skipn_nil_iff in Es. destruct fuel; cbn [delete_walk];
+        replace (length script <=? pc)%nat with true by lia; reflexivity.
+    + assert (Hlen : (length (ob :: r) = length script - pc)%nat) by (rewrite Es; apply skipn_length).
+      cbn [length] in Hlen. destruct fuel as [|f]; [lia|]. cbn [delete_walk].
+      replace (length script <=? pc)%nat with false by lia.
+      symmetry in Es.
+      pose proof (decode_agree script false pc ob r Es) as D. cbv zeta in D. rewrite Hu in D.
+      destruct D as (_ & pc' & E). rewrite E. now rewrite Es.
   - assert (Hlen : (length (i ++ rest) = length script - pc)%nat) by (rewrite Es; apply skipn_length).
     destruct Hc as (Hne & op & d & Hi). destruct i as [|ob i']; [contradiction|].
     rewrite app_length in Hlen. cbn [length] in Hlen.
@@ -177,9 +180,9 @@ Proof.
         replace (pc' - pc)%nat with (length (ob :: i')) by (cbn [length]; lia). apply firstn_app_exact.
       - assert (Hn : rest = []) by (rewrite Hr; apply skipn_nil_iff; lia). rewrite Hn in *.
         rewrite firstn_all2; [apply app_nil_r|]. rewrite app_length. cbn [length] in *. lia. }
-    rewrite Hsec. rewrite (IH pc' Hr f) by lia.
+    cbv iota. rewrite Hsec. rewrite (IH pc' Hr f) by lia.
     cbn [filter]. change (keep sub (ob :: i')) with (negb (bytes_eqb (ob :: i') sub)).
-    destruct (bytes_eqb (ob :: i') sub); reflexivity.
+    destruct (bytes_eqb (ob :: i') sub); cbn [negb concat]; [reflexivity|now rewrite <- app_assoc].
 Qed.
 
 (* ---- the pattern: CScript() << blob ------------------------------------------------------------------------------- *)
@@ -247,31 +250,37 @@ Qed.
 Lemma filter_complete (f : bytes -> bool) l : Forall complete l -> Forall complete (filter f l).
 Proof. induction 1; cbn [filter]; [constructor|]. destruct (f x); [constructor|]; assumption. Qed.
 
-Lemma py_multi sigs : forall s l, dec s l -> Forall item_ok sigs ->
-  delete_signatures s sigs = Ret (concat (fold_left (fun acc p => filter (keep p) acc) (map push_encode sigs) l)).
+Lemma py_multi sigs : forall s l u, dec s l u -> Forall item_ok sigs ->
+  delete_signatures s sigs = Ret (concat (fold_left (fun acc p => filter (keep p) acc) (map push_encode sigs) l) ++ u).
 Proof.
-  induction sigs as [|sg r IH]; intros s l Hd Hi; cbn [delete_signatures map fold_left].
-  - now rewrite (dec_concat _ _ Hd).
+  induction sigs as [|sg r IH]; intros s l u Hd Hi; cbn [delete_signatures map fold_left].
+  - now rewrite (dec_concat _ _ _ Hd).
   - inversion Hi as [|? ? Hsg Hr]; subst. unfold delete_signature. rewrite (plain_push_eq sg Hsg).
-    rewrite (delete_walk_filter s (push_encode sg) l 0 Hd (length s)) by lia.
-    apply IH; [|exact Hr]. apply dec_of_complete. apply filter_complete. exact (dec_complete _ _ Hd).
+    rewrite (delete_walk_filter s (push_encode sg) l u 0 Hd (length s)) by lia.
+    apply IH; [|exact Hr]. apply dec_of_complete; [|exact (dec_tail _ _ _ Hd)].
+    apply filter_complete. exact (dec_complete _ _ _ Hd).
 Qed.
 
-Lemma core_multi sigs : forall s l, dec s l -> Forall item_ok sigs ->
+Lemma core_multi sigs : forall s l u, dec s l u -> Forall item_ok sigs ->
   fold_left (fun c sg => find_and_delete (push_encode sg) c) sigs s
-  = concat (fold_left (fun acc p => filter (keep p) acc) (map push_encode sigs) l).
+  = concat (fold_left (fun acc p => filter (keep p) acc) (map push_encode sigs) l) ++ u.
 Proof.
-  induction sigs as [|sg r IH]; intros s l Hd Hi; cbn [map fold_left].
-  - now rewrite (dec_concat _ _ Hd).
+  induction sigs as [|sg r IH]; intros s l u Hd Hi; cbn [map fold_left].
+  - now rewrite (dec_concat _ _ _ Hd).
   - inversion Hi as [|? ? Hsg Hr]; subst.
-    rewrite (find_and_delete_filter _ s l (push_complete sg Hsg) Hd).
-    apply IH; [|exact Hr]. apply dec_of_complete. apply filter_complete. exact (dec_complete _ _ Hd).
+    rewrite (find_and_delete_filter _ s l u (push_complete sg Hsg) Hd).
+    apply IH; [|exact Hr]. apply dec_of_complete; [|exact (dec_tail _ _ _ Hd)].
+    apply filter_complete. exact (dec_complete _ _ _ Hd).
 Qed.
 
-Theorem fad_ok_dec tail l : dec tail l -> fad_ok tail.
+Theorem fad_ok_dec tail l u : dec tail l u -> fad_ok tail.
 Proof.
   intros Hd sigs Hi. unfold core_code.
-  rewrite (py_multi (rev sigs) tail l Hd) by (apply Forall_rev; exact Hi).
-  rewrite (core_multi sigs tail l Hd Hi). f_equal. f_equal.
+  rewrite (py_multi (rev sigs) tail l u Hd) by (apply Forall_rev; exact Hi).
+  rewrite (core_multi sigs tail l u Hd Hi). f_equal. f_equal. f_equal.
   rewrite !filter_fold. apply filter_ext. intros i. rewrite map_rev. apply keep_all_rev.
 Qed.
+
+(* every script code: no decodability condition *)
+Theorem fad_ok_all tail : fad_ok tail.
+Proof. destruct (dec_exists (length tail) tail (le_n _)) as (l & u & Hd). exact (fad_ok_dec tail l u Hd). Qed.
